@@ -660,6 +660,23 @@ func init() {
 		}
 		return v.get().(Bool)
 	})
+	reg("(reflect.Value).Bytes", func(in *Interp, fr *frame, a []Value) Value {
+		// the underlying []byte of a byte slice (arrays of bytes must be addressable: not needed by the repo, rejected)
+		v := a[0].(RV)
+		if in.rvKind(v) == kSlice {
+			if sl, ok := v.T.Underlying().(*types.Slice); ok {
+				if b, ok := sl.Elem().Underlying().(*types.Basic); ok && b.Kind() == types.Uint8 {
+					return v.get()
+				}
+			}
+			in.rpanic("reflect.Value.Bytes of non-byte slice")
+		}
+		if in.rvKind(v) == kArray {
+			panic(engineErr("reflect.Value.Bytes on an array: not modelled"))
+		}
+		in.rpanic(valueErr("reflect.Value.Bytes", in.rvKind(v)))
+		return nil
+	})
 	reg("(reflect.Value).String", func(in *Interp, fr *frame, a []Value) Value { return in.rvString(a[0].(RV)) })
 	reg("(reflect.Value).Interface", func(in *Interp, fr *frame, a []Value) Value { return in.rvInterface(a[0].(RV)) })
 	reg("(reflect.Value).CanInterface", func(in *Interp, fr *frame, a []Value) Value {
